@@ -52,6 +52,19 @@ struct Model
             cells[static_cast<size_t>(f.cell)] |= (f.get(o) & f.mask()) << f.shift;
         data = d.data(o);
     }
+    // raw bytes written at header offset `at`: every cell byte inside the run takes the new value (big-endian cells)
+    void writeRaw(int at, const Bytes& bytes)
+    {
+        for (size_t ci = 0; ci < d.cells.size(); ++ci)
+            for (int j = 0; j < d.cells[ci].width; ++j)
+            {
+                int pos = d.cells[ci].offset + j - at;
+                if (pos < 0 || pos >= static_cast<int>(bytes.size()))
+                    continue;
+                int sh = 8 * (d.cells[ci].width - 1 - j);
+                cells[ci] = (cells[ci] & ~(0xFFull << sh)) | (static_cast<uint64_t>(bytes[static_cast<size_t>(pos)]) << sh);
+            }
+    }
     void write(const FieldT<Obj>& f, uint64_t v)
     {
         uint64_t& c = cells[static_cast<size_t>(f.cell)];
@@ -143,6 +156,39 @@ static Verdict runOn(const DescT<Obj>& d, const Case& c, Info& info)
     }
     for (size_t i = 0; i < c.ops.size(); ++i)
     {
+        if (c.ops[i].field >= 0x8000)
+        {
+            // group setter (raw run of header bytes); classes without one skip the op
+            if (d.groups.empty())
+                continue;
+            const auto& g = d.groups[(c.ops[i].field - 0x8000u) % d.groups.size()];
+            uint8_t n = g.takesLength ? static_cast<uint8_t>((c.ops[i].value >> 32) % static_cast<uint64_t>(g.maxLength + 1)) : static_cast<uint8_t>(g.maxLength);
+            Bytes run = fillBytes(static_cast<uint32_t>(c.ops[i].value), n);
+            Bytes runArg = run;
+            runArg.resize(static_cast<size_t>(g.maxLength));  // the pointer always covers the fixed-size variant
+            Bytes imgBefore = d.hasImage ? d.image(o) : Bytes();
+            g.set(o, runArg.data(), n);
+            m.writeRaw(g.offset, run);
+            std::ostringstream what;
+            what << "op " << i << ": " << g.name << " with " << int(n) << " bytes";
+            VF_TRY(m.check(o, what.str()));
+            if (d.hasImage)
+            {
+                Bytes imgAfter = d.image(o);
+                VF_CHECK(imgAfter.size() == imgBefore.size(), d.name << ": after " << what.str() << " the header size changed");
+                for (size_t k = 0; k < imgAfter.size(); ++k)
+                {
+                    bool inRun = static_cast<int>(k) >= g.offset && static_cast<int>(k) < g.offset + n;
+                    VF_CHECK(imgAfter[k] == (inRun ? run[k - static_cast<size_t>(g.offset)] : imgBefore[k]),
+                             d.name << ": after " << what.str() << " header byte " << k << " is wrong");
+                }
+            }
+            ++writes;
+            if (c.bg != 0)
+                changedOnNonZero = true;
+            info.tag("group_setter");
+            continue;
+        }
         const auto& f = d.fields[c.ops[i].field % d.fields.size()];
         if (!f.set)
             continue;
@@ -177,6 +223,27 @@ static void enumerate(int, const std::function<bool(const Case&)>& emit)
             nFields = desc.fields.size();
             return Verdict::pass();
         });
+        size_t nGroups = 0;
+        withClass(cls, [&](auto desc) {
+            nGroups = desc.groups.size();
+            return Verdict::pass();
+        });
+        // group setters: every group x every length x backgrounds
+        for (size_t g = 0; g < nGroups; ++g)
+            for (uint64_t n = 0; n <= 12; ++n)
+                for (uint8_t bg = 0; bg < 3; ++bg)
+                {
+                    Case c;
+                    c.cls = static_cast<uint8_t>(cls);
+                    c.bg = bg;
+                    c.seed = static_cast<uint32_t>(cls * 100 + g);
+                    Op op;
+                    op.field = static_cast<uint16_t>(0x8000 + g);
+                    op.value = (n << 32) | (n * 7 + 1);
+                    c.ops.push_back(op);
+                    if (!emit(c))
+                        return;
+                }
         for (size_t f = 0; f < nFields; ++f)
             for (uint8_t bg = 0; bg < 3; ++bg)
             {
@@ -203,6 +270,8 @@ static rc::Gen<Case> genCase(int tier)
         {
             Op op;
             op.field = *range<uint16_t>(0, 63);
+            if (*range<int>(0, 5) == 0)
+                op.field = static_cast<uint16_t>(0x8000 + op.field);  // group setter, for the classes that have one
             op.value = *rc::gen::weightedOneOf<uint64_t>(
                 {{2, rc::gen::element<uint64_t>(0, 1, 0xFFFFFFFFFFFFFFFFull, 0xFFFFFFFFFFFFFFFEull, 0x5555555555555555ull, 0xAAAAAAAAAAAAAAAAull, 0x8000000000000000ull, 0x7FFFFFFFFFFFFFFFull)},
                  {1, rc::gen::map(range<int>(0, 63), [](int b) { return static_cast<uint64_t>(1ull << b); })},
@@ -222,6 +291,6 @@ int main(int argc, char** argv)
     prop.enumerate = enumerate;
     prop.enumerationIsExhaustive = true;
     prop.enumerationNote = "every setter of every class x every in-range value of fields <= 16 bits x backgrounds all-zero / all-ones / "
-                           "pseudo-random; boolean flags set and cleared in both orders";
+                           "pseudo-random; boolean flags set and cleared in both orders; group setters x every length";
     return pbtMain(argc, argv, prop);
 }
